@@ -405,6 +405,18 @@ pub fn replay_input(inp: &Value) -> i32 {
                 .collect();
             check_invalid(base, &muts)
         }
+        Some("reference") => {
+            let bad = crate::selftest::crate_on_reference_images();
+            for (n, e) in &bad {
+                println!("VIOLATION property=C15 signature=reference-images/{}\n  {}", n, e);
+            }
+            return if bad.is_empty() {
+                println!("no violation on replay");
+                0
+            } else {
+                1
+            };
+        }
         Some("constant") => {
             let bases = invalid_bases();
             let base = bases.iter().find(|b| Some(b.name) == inp["base"].as_str()).unwrap();
@@ -492,6 +504,9 @@ pub fn run(tier: &str) -> i32 {
                 viols.push(x);
             }
         }
+    }
+    for (name, e) in crate::selftest::crate_on_reference_images() {
+        viols.push(v(&format!("reference-images/{}", name), format!("the crate does not read a reference image as the independent reader does: {}", e), json!({"kind":"reference"})));
     }
     rep.add_violations(viols);
     rep.cov("evaluations", json!(valid_n + below + invalid_n));
